@@ -120,7 +120,7 @@ func init() {
 	machineByID[12] = newSchedMachine
 	for kind, nm := range map[int]string{1: "sched-bloom", 2: "sched-cms", 3: "sched-hll", 4: "sched-cuckoo", 5: "sched-topk"} {
 		registry["C16"] = append(registry["C16"], Suite{Name: nm, NewMachine: newSchedMachine, Gen: genC16(kind),
-			Monitors: []Monitor{monitorSched(kind)}, OpName: schedOpName,
+			OMonitors: []OMonitor{monitorSched(kind)}, OpName: schedOpName,
 			Nontrivial: func(r *RunResult) bool {
 				for _, op := range r.Ops {
 					if op.L[0].I() == 2 && len(op.L[3].L) >= 4 {
